@@ -26,6 +26,7 @@ var (
 )
 
 func main() {
+	core.SuperviseSelf("C12") // a runtime fatal error inside the code under test (part C serves on several goroutines) is a finding
 	r := core.Start("C12")
 	if pf := os.Getenv("C12_CPUPROFILE"); pf != "" && (!r.IsWorker() || os.Getenv("C12_PROFILE_WORKER") != "") {
 		f, _ := os.Create(pf)
